@@ -8,6 +8,8 @@
      [6; ns; sp; sq; bd; b0n; b1n]            expanded taper codes of _freq_filter (si = sp/sq, b = bn/bd)
      [7; ns; is_complex]                      dft: number of output coefficients
      [8; b0n; b1n; xn]                        fcn_cosine taper code at x (integers over a common denominator)
+     [11; 0; chars..] / [11; 1; chars..]      class of a filter `typ` string / of a convolve `mode` string (ASCII codes)
+     [12; nsx; nsw; mlen; mode..; x..; w..]   convolve(x, w, mode=<string>): 1::list, [2] = returns None, [0] = raises
      [10; ns; is_complex; m]                  dft with kscale of m entries (m < 0: kscale=None): number of coefficients
      [9; dx; dw]                              convolve: result dtype (0 float32, 1 float64, 2 integer) of operand dtypes
    output: see `run` (options as 0 / 1 :: payload, lists length-prefixed). *)
@@ -46,6 +48,18 @@ Definition run (inp : list Z) : list Z :=
       enc_option (enc_list enc_triple) (freq_response ns sp sq bd b0n b1n)
   | [7; ns; c] => [dft_nk ns (c =? 1)]
   | [8; b0n; b1n; xn] => enc_triple (taper_code b0n b1n xn)
+  | 11 :: 0 :: str => [match typ_class str with THp => 0 | TLp => 1 | TBp => 2 | TBad => 3 end]
+  | 11 :: 1 :: str => [match mode_class str with MFull => 0 | MSame => 1 | MOther => 2 end]
+  | 12 :: nsx :: nsw :: mlen :: r =>
+      let mode := firstn (Z.to_nat mlen) r in
+      let r' := skipn (Z.to_nat mlen) r in
+      let x := firstn (Z.to_nat nsx) r' in
+      let w := firstn (Z.to_nat nsw) (skipn (Z.to_nat nsx) r') in
+      match convolve_py Z 0 zcirc mode x w with
+      | Ret l => 1 :: enc_zlist l
+      | RetNone => [2]
+      | Raise => [0]
+      end
   | [10; ns; c; m] => [dft_nk_k ns (c =? 1) (if m <? 0 then None else Some m)]
   | [9; dx; dw] => [enc_dtype (conv_result_dtype (dec_dtype dx) (dec_dtype dw))]
   | _ => [-999]
